@@ -32,8 +32,9 @@ def select_templates(prop, tier):
 
 def hash_orders(tier): return ('ins', 'rev') if tier == 'quick' else ('ins', 'rev', 'rot')
 
-def run(prop, tier, seed=0):
-    t0 = time.time()
+def run(prop, tier, seed=0, extra=None):
+    """extra: unit-level part of the same property: dict(samples, violations[(key, path, text)], inconclusive[], states, transitions, functions_encoded, library_models, solver_time_s, validated)"""
+    t0 = time.time() - (extra or {}).get('wall_s', 0)
     templates = select_templates(prop, tier)
     tmap = {t.name: t for t in templates}
     results = runner.explore_all(templates, hash_orders=hash_orders(tier), budget_paths=5000, budget_s=1500 if tier == 'thorough' else 600)
@@ -68,9 +69,9 @@ def run(prop, tier, seed=0):
                    'history': tmpl.describe(), 'key': key}
         path = common.write_replay(prop, key, payload)
         violations[key] = (key, path, text)
-    if prop in ('C01', 'C02', 'C08', 'C09', 'C13', 'C14', 'C10'):
+    if prop in ('C01', 'C02', 'C08', 'C09', 'C13', 'C14', 'C10'):   # kinds of judge.KIND_PROP
         for f in findings:
-            if f['prop'] != prop: continue
+            if f['prop'] != prop and not (prop == 'C10' and f['kind'] in ('sym_extra', 'sym_missing', 'unsound_eq', 'missing_eq') and f['template'].startswith(('TH', 'TW', 'TORB', 'T4', 'B4', 'B5'))): continue
             rec = rec_index.get((f['template'], f['hash_order'], f['path'], tuple(f['pattern'])))
             if rec is None: continue      # record not validated natively: no verdict from it
             key = finding_key(f, rec.get('panic') if rec else None)
@@ -140,6 +141,20 @@ def run(prop, tier, seed=0):
                    'oracle: brute-force ground congruence closure over a pool of (#names + 3) names (mirsmt/oracle.py)',
                    'every symbolic record was re-run natively on the real crate under the concrete names of its model and compared field by field',
                    'histories outside the listed template shapes are outside the claim']
+    if extra:
+        cov['samples'] = extra.get('samples', []) + cov['samples']
+        cov['states'] += extra.get('states', 0); cov['transitions'] += extra.get('transitions', 0)
+        cov['traces_validated_against_impl'] += extra.get('validated', 0)
+        cov['functions_encoded'] = sorted(set(cov['functions_encoded']) | set(extra.get('functions_encoded', [])))
+        cov['library_models'] = sorted(set(cov['library_models']) | set(extra.get('library_models', [])))
+        cov['solver_time_s'] = round(cov['solver_time_s'] + extra.get('solver_time_s', 0), 2)
+        cov['unit_level'] = extra.get('summary')
+        cov['bounds'] = extra.get('bounds', '') + ' | history level: ' + cov['bounds']
+        inconclusive.extend(extra.get('inconclusive', []))
+        for key, path, text in extra.get('violations', []):
+            km = common.known_match(known, prop, key)
+            if km: known_hits.setdefault(key, 'key=%s %s' % (key, km['text']))
+            else: violations[key] = (key, path, text)
     common.write_evidence(prop, tier, 'model_checking', cov, assumptions, time.time() - t0, len(violations), seed)
     return common.finish(prop, list(violations.values()), list(known_hits.items()), inconclusive)
 
